@@ -40,6 +40,8 @@ def gen_ops():
     # outcome depends on the type of every key of its point
     add("run_void_into_keys", 'add_key(tg, a.b)\nadd_key(fi, a.b)\nset_tag(fs, a.b)\nprobe(tg, fi, fs)', pt=STD_PT)
     add("run_typed_fields", 'add_key(rx, fi + fi)\nadd_key(ry, ff + 1)\nadd_key(rz, fs + "s")\nif fb { add_key(rb, fb) }\nprobe(fi, ff, fs, fb, fn, tg)', pt=STD_PT)
+    # a decoded literal is fresh on every evaluation and every run: its result is changed in place, the script is run again
+    add("run_loadjson_mutate", 'a = load_json("[1,\\"a\\",null]")\nprobe(a)\na[0] = fi\na[2] = fs\nadd_key(lj, a)\nm = {"k": [0]}\nprobe(m)\nm["k"][0] = fi', pt=STD_PT)
     # the same grok text under different local definitions of the alias it names, and with no definition at all
     add("run_grok_digits", 'add_pattern("hw", "\\\\d+")\nok = grok(fs, "%{hw:w}")\nprobe(ok, w)', pt={"meas": "m", "tags": {}, "fields": {"fs": "abc 123"}})
     add("run_grok_letters", 'add_pattern("hw", "[a-c]+")\nok = grok(fs, "%{hw:w}")\nprobe(ok, w)', pt={"meas": "m", "tags": {}, "fields": {"fs": "abc 123"}})
